@@ -6,6 +6,7 @@ import (
 	"os"
 	"regexp"
 	"sync"
+	"unicode/utf8"
 
 	"github.com/reeflective/readline/inputrc"
 	"github.com/reeflective/readline/internal/strutil"
@@ -230,14 +231,29 @@ func (k *Keys) ReadKey() (key rune, isAbort bool) {
 		key = k.macroKeys[0]
 		k.macroKeys = k.macroKeys[1:]
 
+	case len(k.buf) > 0:
+		// Keys that were read already (typed ahead) come first.
+		key = k.takeRune(nil)
+
 	case k.waiting:
 		buf := <-k.keysOnce
 		YieldPoint("readkey.keysonce.received")
-		key = []rune(string(buf))[0]
+
+		if len(buf) == 0 {
+			return 0, true
+		}
+
+		key = k.takeRune(buf)
 	default:
 		buf, _ := k.readInputFiltered()
 		YieldPoint("readkey.read.returned")
-		key = []rune(string(buf))[0]
+
+		// The input has ended or failed: abort the command.
+		if len(buf) == 0 {
+			return 0, true
+		}
+
+		key = k.takeRune(buf)
 	}
 
 	// Always mark those keys as matched, so that
@@ -246,6 +262,19 @@ func (k *Keys) ReadKey() (key rune, isAbort bool) {
 	k.matched = append(k.matched, key)
 
 	return key, key == inputrc.Esc
+}
+
+// takeRune returns the first rune of the keys just read (or of the keys
+// waiting in the stack if none is given), and keeps the rest in the stack.
+func (k *Keys) takeRune(read []byte) rune {
+	k.mutex.Lock()
+	defer k.mutex.Unlock()
+
+	k.buf = append(k.buf, read...)
+	key, size := utf8.DecodeRune(k.buf)
+	k.buf = k.buf[size:]
+
+	return key
 }
 
 // Pop removes the first byte in the key stack (first read) and returns it.
